@@ -3,6 +3,7 @@ module github.com/free5gc/chf/verifh
 go 1.21
 
 require (
+	github.com/asaskevich/govalidator v0.0.0-20230301143203-a9d515a09cc2
 	github.com/fiorix/go-diameter v3.0.2+incompatible
 	github.com/free5gc/chf v0.0.0
 	github.com/free5gc/openapi v1.1.0
@@ -15,7 +16,6 @@ require (
 
 require (
 	cloud.google.com/go/compute/metadata v0.3.0 // indirect
-	github.com/asaskevich/govalidator v0.0.0-20230301143203-a9d515a09cc2 // indirect
 	github.com/aws/aws-sdk-go v1.44.177 // indirect
 	github.com/dropbox/dropbox-sdk-go-unofficial v5.6.0+incompatible // indirect
 	github.com/evanphx/json-patch v0.5.2 // indirect
